@@ -15,7 +15,7 @@ NoColorSplit == {"point", "line", "text"}
 (* ---- lexical tables ---- *)
 Marker(sym) == CASE sym = "circle" -> "o" [] sym = "box" -> "s" [] sym = "diamond" -> "D" [] sym = "x" -> "x" [] sym = "cross" -> "+"
 SymbolOf(m) == CASE m = "o" -> "circle" [] m = "s" -> "box" [] m = "D" -> "diamond" [] m = "x" -> "x" [] m = "+" -> "cross"
-PointParts(pt) == CASE pt = "cross" -> <<"cross">> [] pt = "cross 12" -> <<"cross", "12">> [] pt = "diamond 7" -> <<"diamond", "7">> [] pt = "x" -> <<"x">>
+PointParts(pt) == CASE pt = "cross" -> <<"cross">> [] pt = "cross 12" -> <<"cross", "12">> [] pt = "diamond 7" -> <<"diamond", "7">> [] pt = "x" -> <<"x">> [] pt = "circle" -> <<"circle">>
 FontParts(f) == CASE f = "times" -> <<"times">> [] f = "times 14" -> <<"times", "14">> [] f = "times 14 bold" -> <<"times", "14", "bold">>
                   [] f = "times 14 bold italic" -> <<"times", "14", "bold", "italic">>
                   [] f = "helvetica 10 normal roman" -> <<"helvetica", "10", "normal", "roman">>
@@ -75,7 +75,9 @@ ToDs9(shape, v) ==
 (* the font string written is always the 4-part form; reading it back needs its parts *)
 FontPartsW(f) == IF f \in Fonts THEN FontParts(f)
                  ELSE CASE f = "times 10 normal roman" -> <<"times", "10", "normal", "roman">> [] f = "times 14 normal roman" -> <<"times", "14", "normal", "roman">>
-                        [] f = "times 14 bold roman" -> <<"times", "14", "bold", "roman">>
+                        [] f = "times 14 bold roman" -> <<"times", "14", "bold", "roman">> [] f = "times 10 bold roman" -> <<"times", "10", "bold", "roman">>
+                        [] f = "times 10 normal italic" -> <<"times", "10", "normal", "italic">> [] f = "times 10 bold italic" -> <<"times", "10", "bold", "italic">>
+                        [] f = "times 14 normal italic" -> <<"times", "14", "normal", "italic">> [] f = "times 14 bold italic" -> <<"times", "14", "bold", "italic">>
 
 (* ---- state machine: parse, serialise, parse again ---- *)
 VARIABLES shape, props, vis1, out, vis2, pc
@@ -95,6 +97,28 @@ Reparse == pc = "reparse" /\ vis2' = ToVisualW(shape, out) /\ pc' = "done" /\ UN
 Next == Parse \/ Serialize \/ Reparse
 Spec == Init /\ [][Next]_vars
 Done == pc = "done"
+
+(* ---- a second entry point: visual attributes given through the API (as a matplotlib user writes them), serialised first ---- *)
+(* what the writer assumes for what is not given (font size 10, weight normal, style roman) is what DS9 assumes, so that the text *)
+(* written and the attributes read back from it describe the same appearance, and from then on the cycle is a fixed point            *)
+Opt(x) == {A, x}
+ApiVisuals(sh) ==
+  LET fonts == IF sh = "text" THEN {[n |-> "times", z |-> z, w |-> w, t |-> t] : z \in Opt("14"), w \in Opt("bold"), t \in {A, "italic", "normal"}} \cup {[n |-> A, z |-> A, w |-> A, t |-> A]}
+               ELSE {[n |-> A, z |-> A, w |-> A, t |-> A]}
+      lines == IF sh \in {"point", "text"} THEN {A} ELSE {A, "dashed", "dashes 8 3"}
+      marks == IF sh = "point" THEN {<<A, A>>, <<"o", A>>, <<"D", "7">>} ELSE {<<A, A>>}
+      fills == IF sh \in Fillable THEN {A, "T"} ELSE {A}
+  IN {[NoVisual EXCEPT !.fontname = f.n, !.fontsize = f.z, !.fontweight = f.w, !.fontstyle = f.t, !.linestyle = l, !.marker = m[1], !.markersize = m[2],
+                       !.fill = fl, !.edgecolor = c, !.linewidth = IF sh = "point" THEN A ELSE lw, !.markeredgewidth = IF sh = "point" THEN lw ELSE A] :
+        f \in fonts, l \in lines, m \in marks, fl \in fills, c \in Opt("red"), lw \in Opt("3")}
+InitW == shape \in Shapes /\ props = NoProps /\ vis1 \in ApiVisuals(shape) /\ out = NoProps /\ vis2 = NoVisual /\ pc = "serialize"
+SpecW == InitW /\ [][Next]_vars
+WriterDefaultsAreDs9s == Done /\ vis1.fontname # A =>
+                           /\ vis2.fontsize = (IF vis1.fontsize = A THEN "10" ELSE vis1.fontsize)
+                           /\ vis2.fontweight = (IF vis1.fontweight = A THEN "normal" ELSE vis1.fontweight)
+                           /\ vis2.fontstyle = (IF vis1.fontstyle = A THEN "normal" ELSE vis1.fontstyle)
+SecondCycleFixed == Done => ToVisualW(shape, ToDs9(shape, vis2)) = vis2
+LineStyleSurvives == Done => vis2.linestyle = vis1.linestyle
 
 (* ---------------- properties ---------------- *)
 (* parsing, serialising and parsing again returns the visual attributes of the first parse *)
